@@ -1,10 +1,14 @@
 """C04 Fiat-Shamir binding: each challenge depends on everything before it (structural, modulo merlin's collision resistance).
 
-R-C04-1  schedule: the per-proof transcript events of prover and verifier match the protocol schedule, with the data slots filled
-         from the statement / parameters / proof (whole collections, in order)
-R-C04-2  absorbed-before-challenge: every datum class precedes, on every accepted path, each challenge drawn after it
-R-C04-3  context: every event acts on the caller-supplied transcript
-R-C04-4  prover messages absorbed are the ones stored in the proof; verifier absorbs the proof's fields
+Label values and the relative order of absorptions inside one phase are *not* part of this property (they are wire format, C19):
+events are classified by the datum they absorb.
+R-C04-1  every datum class (both commitment-generator kinds, bit length, extension degree, aggregation factor, every commitment,
+         every promise with None as 0, A; every L and R; A1 and B) is absorbed, whole and in order, from the caller's statement /
+         proof, on every accepted path
+R-C04-2  absorbed-before-challenge: each class precedes every challenge that the protocol draws after it (y, z; each round e in
+         the same iteration as its L, R; the final e)
+R-C04-3  context: every event acts on the caller-supplied transcript; no fresh or cloned transcript on the proof path
+R-C04-4  the prover absorbs the very messages it stores in the proof; the verifier absorbs the proof's fields
 """
 from bpsa.normal import canon
 from bpsa.terms import walk, short, T
@@ -17,26 +21,87 @@ LEVEL_TEXT = ('Static analysis (structured trace of merlin boundary calls over M
               'lengths (distinct (label, data) sequences give distinct states); does not decide hash collision resistance.')
 ASSUMPTIONS = ['merlin::Transcript::append_message / append_u64 / challenge_bytes bind label and length (STROBE framing)',
                'reverse post-order of must-executed blocks respects execution order (MIR from structured source is reducible)']
-RULE_TEXT = ('one obligation per schedule position per role (kind, label, loop depth, must-ness, validation), one per data slot, one per challenge '
-             '(absorbed-before), one per receiver; non-trivial = decided from a data/receiver term')
+RULE_TEXT = ('one obligation per datum class and role (present, whole, from the right source, on every path), one per challenge (absorbed-before), one per '
+             'receiver / prover message; non-trivial = decided from a data/receiver term')
 
 ALLOWED_ADAPTERS = {'chunks', 'chunks_mut'}
-# slot -> (fields that must occur in the data term (any of), source: 'statement' | 'proof')
-SLOTS = {
-    'h_base': (('h_base', 'h_base_compressed'), 'statement'),
-    'g_bases': (('g_base_compressed_vec', 'g_base_vec'), 'statement'),
-    'bit_length': (('gens_capacity',), 'statement'),
-    'extension_degree': (('extension_degree',), 'statement'),
-    'aggregation': (('commitments', 'commitments_compressed'), 'statement'),
-    'commitments': (('commitments_compressed', 'commitments'), 'statement'),
-    'promise': (('minimum_value_promises',), 'statement'),
+STATEMENT_CLASSES = {
+    'h_base': (('h_base', 'h_base_compressed'), False),
+    'g_bases': (('g_base_compressed_vec', 'g_base_vec'), True),
+    'bit_length': (('gens_capacity',), False),
+    'extension_degree': (('extension_degree',), False),
+    'commitments': (('commitments_compressed', 'commitments'), True),
+    'promise': (('minimum_value_promises',), True),
 }
 PROOF_SLOTS = ['a', 'li', 'ri', 'a1', 'b']
-ELEMENT_SLOTS = {'g_bases', 'commitments', 'promise', 'li', 'ri'}
+PHASE0 = ['h_base', 'g_bases', 'bit_length', 'extension_degree', 'aggregation', 'commitments', 'promise', 'promise-none', 'a']
 
 
 def param_roots(t):
     return {(x[1], x[2]) for x in walk(t) if x.tag == 'param'}
+
+
+def prover_message_slot(ctx, body, fields, d):
+    """which proof field the absorbed datum is the compression of (prover side)"""
+    comp = [x for x in walk(d) if x.tag == 'call' and x[1].endswith('Compressable::compress')]
+    if not comp:
+        return None
+    pt = strip(comp[0][2][0])
+    for slot in PROOF_SLOTS:
+        stored = fields.get(slot)
+        if stored is None:
+            continue
+        if slot in ('li', 'ri'):
+            # stored: map(vec, |p| p.compress());  absorbed: compress(vec.last())
+            vec = strip(pt[1]) if pt.tag == 'elemat' else None
+            sv = strip(stored)
+            while sv.tag == 'map':
+                sv = strip(sv[1])
+            if vec is not None and sv is vec:
+                return slot
+        else:
+            st = strip(stored)
+            if st.tag == 'call' and st[1].endswith('Compressable::compress'):
+                x0 = strip(st[2][0])
+                if x0 is pt or canon(x0) == canon(pt):
+                    return slot
+    return None
+
+
+def classify(ctx, body, role, e, st_idx, pr_idx, fields):
+    """(class, well-formed?, detail) of an absorption event"""
+    d = e.data()
+    if d is None:
+        return None, False, ''
+    roots = param_roots(d)
+    fs = ctx.fields_of(d)
+    ads = set(ctx.adapters(d)) - ALLOWED_ADAPTERS
+    from_st = any((body.key, i) in roots for i in st_idx)
+    from_pr = any((body.key, i) in roots for i in pr_idx)
+    has_elem = any(x.tag == 'elem' for x in walk(d))
+    if not roots and strip(d).tag in ('const', 'cast'):
+        zero = [x for x in walk(d) if x.tag == 'const']
+        if zero and zero[0][1] == 0 and e.kind == 'append_u64':
+            return 'promise-none', True, 'constant 0'
+        return None, False, ''
+    if role == 'prover':
+        slot = prover_message_slot(ctx, body, fields, d)
+        if slot:
+            return slot, True, short(d, 100)
+    elif from_pr:
+        for slot in PROOF_SLOTS:
+            if slot in fs:
+                good = not ads and (slot not in ('li', 'ri') or any(x.tag == 'elem' and x[1].tag == 'field' and x[1][1] == slot for x in walk(d)))
+                return slot, good, short(d, 100) + (' through %s' % sorted(ads) if ads else '')
+    if from_st:
+        elem_of_commitments = any(x.tag == 'elem' and x[1].tag == 'field' and x[1][1] in ('commitments', 'commitments_compressed') for x in walk(d))
+        if 'commitments' in fs and not elem_of_commitments and any(x.tag == 'call' and x[1].split('::')[-1] == 'len' for x in walk(d)):
+            return 'aggregation', not ads, short(d, 100)
+        for cls, (fields_any, need_elem) in STATEMENT_CLASSES.items():
+            if any(f in fs for f in fields_any):
+                good = not ads and (has_elem or not need_elem)
+                return cls, good, short(d, 100) + (' through %s' % sorted(ads) if ads else '')
+    return None, False, short(d, 100)
 
 
 def run(ctx):
@@ -45,124 +110,96 @@ def run(ctx):
         body = wire.entry(ctx, role, 'R-C04-1')
         if body is None:
             continue
-        slots = wire.match_schedule(ctx, 'R-C04-1', body, role, wire.SCHEDULE + (wire.VERIFIER_TAIL if role == 'verifier' else []))
-        if slots is None:
+        mine, other, allev = wire.proof_events(ctx, body, 'R-C04-1')
+        if not mine:
             continue
-        evs = slots['_events']
         st_idx = [i for i in range(1, body.argc + 1) if 'RangeStatement' in body.local_ty(i)]
         pr_idx = [i for i in range(1, body.argc + 1) if 'RangeProof<' in body.local_ty(i)]
-        # ---- data slots from the statement / parameters
-        for slot, (fields, src) in SLOTS.items():
-            es = slots.get(slot, [])
-            for n, e in enumerate(es):
-                d = e.data()
-                key = 'R-C04-1/%s/slot/%s/%d' % (role, slot, n)
-                where = ctx.where(e.body, e.bb)
-                if slot == 'promise' and d is not None and strip(d).tag in ('const', 'cast') and not param_roots(d):
-                    # the `None => 0` alternative
-                    zero = [x for x in walk(d) if x.tag == 'const']
-                    rep.check(bool(zero) and zero[0][1] == 0, 'R-C04-1', key, 'absent promise absorbed as the constant 0', 'absent promise absorbed as %s' % short(d, 80), where)
-                    continue
-                fs = ctx.fields_of(d) if d is not None else set()
-                roots = param_roots(d) if d is not None else set()
-                good_field = any(f in fs for f in fields)
-                good_root = any((body.key, i) in roots for i in st_idx)
-                ads = set(ctx.adapters(d)) - ALLOWED_ADAPTERS if d is not None else set()
-                elem_ok = True
-                if slot in ELEMENT_SLOTS:
-                    elem_ok = any(x.tag == 'elem' for x in walk(d))
-                rep.check(good_field and good_root and not ads and elem_ok, 'R-C04-1', key,
-                          '%s absorbs %s of the statement (whole, in order): %s' % (e.label(), '/'.join(fields), short(d, 140)),
-                          '%s does not absorb the whole %s of the caller\'s statement: data = %s%s' % (
-                              e.label(), '/'.join(fields), short(d, 200), ' (through %s)' % sorted(ads) if ads else ''), where)
-            if slot == 'promise':
-                kinds = sorted('const' if not param_roots(e.data()) else 'some' for e in es)
-                rep.check(kinds == ['const', 'some'], 'R-C04-1', 'R-C04-1/%s/slot/promise/alternatives' % role,
-                          'promise absorption has exactly the two alternatives Some(v) -> v and None -> 0',
-                          'promise absorption alternatives are %s' % kinds, ctx.where(body))
-        # ---- prover messages
-        if role == 'verifier':
-            for slot in PROOF_SLOTS:
-                for n, e in enumerate(slots.get(slot, [])):
-                    d = e.data()
-                    fs = ctx.fields_of(d)
-                    roots = param_roots(d)
-                    ads = set(ctx.adapters(d)) - ALLOWED_ADAPTERS
-                    good = slot in fs and any((body.key, i) in roots for i in pr_idx) and not ads
-                    if slot in ELEMENT_SLOTS:
-                        good = good and any(x.tag == 'elem' and x[1].tag == 'field' and x[1][1] == slot for x in walk(d))
-                    rep.check(good, 'R-C04-4', 'R-C04-4/verifier/%s' % slot, '%s absorbs field %s of the proof (whole, in order): %s' % (e.label(), slot, short(d, 120)),
-                              '%s does not absorb field %s of the caller\'s proof: %s' % (e.label(), slot, short(d, 200)), ctx.where(e.body, e.bb))
-        else:
-            check_prover_messages(ctx, body, slots)
-        # ---- R-C04-2 absorbed-before-challenge
-        seen_must = []
-        for i, e in enumerate(evs):
-            if e.kind != 'challenge':
+        fields = {}
+        if role == 'prover':
+            rt = ctx.eng.return_term(body)
+            proofs = [x for x in walk(rt) if x.tag == 'adt' and x[1].endswith('RangeProof::RangeProof')]
+            if not proofs:
+                rep.anchor_missing('R-C04-4', 'R-C04-4/prover/aggregate', 'no RangeProof aggregate in the prover\'s return value')
                 continue
-            prior = evs[:i]
-            # every earlier schedule entry is on every accepted path (or is the two-way promise alternative)
-            cond = [p for p in prior if not p.must and p.label() != b'vi - minimum_value']
-            # a challenge inside the round loop must be preceded in the same iteration by that iteration's L and R
-            depth = len(e.loops)
-            same_iter = [p for p in prior if p.loops == e.loops and p.kind != 'challenge']
-            ok = not cond and e.must and (depth == min(len(x.loops) for x in evs) or len(same_iter) >= 2)
-            rep.check(ok, 'R-C04-2', 'R-C04-2/%s/challenge-%02d-%s' % (role, i, (e.label() or b'?').decode('latin1')),
-                      'challenge %r (position %d) is drawn after all %d preceding absorptions on every accepted path' % (e.label(), i, len(prior)),
-                      'challenge %r (position %d) can be drawn without %s' % (e.label(), i, [(p.kind, p.label()) for p in cond] or 'its own round messages'),
-                      ctx.where(e.body, e.bb))
+            fields = dict(proofs[0][2])
+        base = min(len(e.loops) for e in mine)
+        chal = [i for i, e in enumerate(mine) if e.kind == 'challenge']
+        if len(chal) < 4:
+            rep.violation('R-C04-2', 'R-C04-2/%s/challenges' % role, 'only %d challenge draws on the caller\'s transcript (expected y, z, one per round, final)' % len(chal), ctx.where(body))
+            continue
+        top = [i for i in chal if len(mine[i].loops) == base]
+        rnd = [i for i in chal if len(mine[i].loops) > base]
+        if len(top) < 3 or not rnd:
+            rep.violation('R-C04-2', 'R-C04-2/%s/challenge-structure' % role, 'challenge structure is %d straight-line and %d per-round draws (expected >= 3 and >= 1)' % (len(top), len(rnd)), ctx.where(body))
+            continue
+        first_ch, last_ch = top[0], top[-1]
+        cls = {}
+        for i, e in enumerate(mine):
+            if e.kind == 'challenge':
+                continue
+            c, good, det = classify(ctx, body, role, e, st_idx, pr_idx, fields)
+            if c is not None:
+                cls.setdefault(c, []).append((i, e, good, det))
+        # ---- R-C04-1 presence and well-formedness
+        for c in PHASE0 + ['li', 'ri', 'a1', 'b']:
+            hits = cls.get(c, [])
+            key = 'R-C04-1/%s/%s' % (role, c)
+            if not hits:
+                rep.violation('R-C04-1', key, '%s: nothing absorbs the datum `%s` into the transcript: challenges do not depend on it' % (role, c), ctx.where(body))
+                continue
+            i, e, good, det = hits[0]
+            conditional_ok = c in ('promise', 'promise-none')
+            rep.check(good and (e.must or conditional_ok), 'R-C04-1', key, '%s absorbs `%s` (whole, from the caller\'s data): %s' % (role, c, det),
+                      '%s absorbs `%s` defectively (%s): %s' % (role, c, 'not on every path' if not (e.must or conditional_ok) else 'not the whole datum of the caller', det), ctx.where(e.body, e.bb))
+        # the two promise alternatives are the only conditional absorptions
+        cond = [e for i, e in enumerate(mine) if e.kind != 'challenge' and not e.must]
+        pr_events = {id(x[1]) for c in ('promise', 'promise-none') for x in cls.get(c, [])}
+        extra_cond = [e for e in cond if id(e) not in pr_events]
+        rep.check(not extra_cond and len(pr_events) == 2, 'R-C04-1', 'R-C04-1/%s/conditional' % role, 'the only conditional absorptions are the two promise alternatives (Some(v) -> v, None -> 0)',
+                  'conditional absorptions: %s; promise alternatives: %d' % ([(e.kind, e.label()) for e in extra_cond], len(pr_events)), ctx.where(body))
+        # ---- R-C04-2 order
+        def first_index(c):
+            return cls[c][0][0] if c in cls else None
+        for c in PHASE0:
+            i = first_index(c)
+            if i is None:
+                continue
+            rep.check(i < first_ch, 'R-C04-2', 'R-C04-2/%s/%s-before-y' % (role, c), '`%s` is absorbed before the first challenge' % c,
+                      '`%s` is absorbed after the first challenge is drawn: y/z do not depend on it' % c, ctx.where(mine[i].body, mine[i].bb))
+        for r_i in rnd:
+            ch = mine[r_i]
+            same = [j for c in ('li', 'ri') for (j, e, g, d) in cls.get(c, []) if e.loops == ch.loops and j < r_i]
+            classes = {c for c in ('li', 'ri') for (j, e, g, d) in cls.get(c, []) if e.loops == ch.loops and j < r_i}
+            rep.check(classes == {'li', 'ri'} and ch.must, 'R-C04-2', 'R-C04-2/%s/round' % role, 'each round challenge is drawn after that round\'s L and R in the same iteration',
+                      'a round challenge is drawn after only %s of that iteration' % sorted(classes), ctx.where(ch.body, ch.bb))
+            rep.check(r_i > top[1] if len(top) > 1 else True, 'R-C04-2', 'R-C04-2/%s/round-after-yz' % role, 'round challenges follow y and z', 'a round challenge precedes y/z', ctx.where(ch.body, ch.bb))
+        for c in ('a1', 'b'):
+            i = first_index(c)
+            if i is None:
+                continue
+            rep.check(max(rnd) < i < last_ch, 'R-C04-2', 'R-C04-2/%s/%s-before-final' % (role, c), '`%s` is absorbed after the rounds and before the final challenge' % c,
+                      '`%s` is not absorbed between the last round challenge and the final challenge' % c, ctx.where(mine[i].body, mine[i].bb))
+        for i in top:
+            rep.check(mine[i].must, 'R-C04-2', 'R-C04-2/%s/challenge-%d-unconditional' % (role, top.index(i)), 'challenge #%d is drawn on every accepted path' % top.index(i),
+                      'challenge #%d is conditional' % top.index(i), ctx.where(mine[i].body, mine[i].bb))
         # ---- R-C04-3 receivers
-        roots = {wire.root_of(e.receiver()) for e in evs}
+        roots = {wire.root_of(e.receiver()) for e in mine}
         one = len(roots) == 1 and next(iter(roots)).tag == 'param'
         rep.check(one, 'R-C04-3', 'R-C04-3/%s/receiver' % role, 'all %d per-proof transcript events act on the caller-supplied transcript parameter %s' % (
-            len(evs), short(next(iter(roots)), 40) if roots else None), 'transcript events act on several objects: %s' % [short(r, 60) for r in roots], ctx.where(body))
-        news = [e for e in slots['_other'] if e.kind in ('transcript_new', 'transcript_clone')]
-        allowed = [e for e in news if e.kind == 'transcript_new' and e.label() == wire.WEIGHT_LABEL and role == 'verifier']
-        rep.check(len(news) == len(allowed), 'R-C04-3', 'R-C04-3/%s/fresh-transcripts' % role,
-                  'no transcript is created or cloned on the proof path (only the verifier-weight transcript: %d)' % len(allowed),
-                  'a fresh or cloned transcript is used: %s' % [(e.kind, e.label()) for e in news if e not in allowed], ctx.where(body))
-
-
-def check_prover_messages(ctx, body, slots):
-    """R-C04-4 (prover): the absorbed A, L, R, A1, B are compress() of the values stored in the returned proof"""
-    rep = ctx.rep
-    rt = ctx.eng.return_term(body)
-    proofs = [x for x in walk(rt) if x.tag == 'adt' and x[1].endswith('RangeProof::RangeProof')]
-    if not proofs:
-        rep.anchor_missing('R-C04-4', 'R-C04-4/prover/aggregate', 'no RangeProof aggregate in the prover\'s return value')
-        return
-    fields = dict(proofs[0][2])
-    for slot in PROOF_SLOTS:
-        es = slots.get(slot, [])
-        if not es:
-            rep.anchor_missing('R-C04-4', 'R-C04-4/prover/%s' % slot, 'no transcript event for prover message %s' % slot)
-            continue
-        d = es[0].data()
-        stored = fields.get(slot)
-        key = 'R-C04-4/prover/%s' % slot
-        where = ctx.where(es[0].body, es[0].bb)
-        comp = [x for x in walk(d) if x.tag == 'call' and x[1].endswith('Compressable::compress')]
-        if not comp or stored is None:
-            rep.violation('R-C04-4', key, 'absorbed %s is not the compression of a computed point: %s' % (slot, short(d, 160)), where)
-            continue
-        pt = strip(comp[0][2][0])
-        if slot in ('li', 'ri'):
-            # absorbed: compress(last(vec)); stored: map(vec, compress)
-            vec = strip(pt[1]) if pt.tag == 'elemat' else None
-            svec = [x for x in walk(stored) if x.tag == 'mut' and strip(x) is vec] if vec is not None else []
-            good = vec is not None and (bool(svec) or any(strip(x) is vec for x in walk(stored)))
-            rep.check(good, 'R-C04-4', key, 'absorbed %s is the compression of the newest element of the vector whose compression is stored as proof.%s' % (slot, slot),
-                      'absorbed %s (%s) and stored proof.%s (%s) do not come from the same vector' % (slot, short(d, 100), slot, short(stored, 100)), where)
-        else:
-            scomp = [x for x in walk(stored) if x.tag == 'call' and x[1].endswith('Compressable::compress')]
-            good = any(strip(x[2][0]) is pt or same_point(strip(x[2][0]), pt) for x in scomp)
-            rep.check(good, 'R-C04-4', key, 'absorbed %s is compress() of the same point that is stored as proof.%s' % (slot, slot),
-                      'absorbed %s = %s but proof.%s = %s' % (slot, short(d, 120), slot, short(stored, 120)), where)
-
-
-def same_point(a, b):
-    """same accumulator variable, possibly observed before / after the same in-place additions"""
-    if a is b:
-        return True
-    from bpsa.normal import canon
-    return canon(a) == canon(b)
+            len(mine), short(next(iter(roots)), 40) if roots else None), 'transcript events act on several objects: %s' % [short(r, 60) for r in roots], ctx.where(body))
+        news = [e for e in other if e.kind in ('transcript_new', 'transcript_clone')]
+        allowed = [e for e in news if e.kind == 'transcript_new' and role == 'verifier' and not any(wire.root_of(x.receiver()) is e.result for x in mine)]
+        # the challenges must be drawn from the caller's transcript, never from a fresh one
+        ch_roots = {wire.root_of(mine[i].receiver()) for i in chal}
+        rep.check(len(news) == len(allowed) and all(r.tag == 'param' for r in ch_roots), 'R-C04-3', 'R-C04-3/%s/fresh-transcripts' % role,
+                  'challenges are drawn from the caller\'s transcript; no transcript is created or cloned on the proof path (verifier-weight transcript: %d)' % len(allowed),
+                  'a fresh or cloned transcript is involved: %s' % [(e.kind, e.label()) for e in news if e not in allowed], ctx.where(body))
+        # ---- R-C04-4
+        for slot in PROOF_SLOTS:
+            hits = cls.get(slot, [])
+            if hits:
+                i, e, good, det = hits[0]
+                rep.check(good, 'R-C04-4', 'R-C04-4/%s/%s' % (role, slot),
+                          ('the prover absorbs compress() of the point it stores as proof.%s' if role == 'prover' else 'the verifier absorbs field %s of the caller\'s proof (whole, in order)') % slot,
+                          '%s: absorbed %s is %s' % (role, slot, det), ctx.where(e.body, e.bb))
